@@ -266,6 +266,7 @@ type harnessEvidence struct {
 	SolverSec   float64           `json:"solver_seconds"`
 	MaxQuerySec float64           `json:"max_query_seconds"`
 	WallSec     float64           `json:"wall_seconds"`
+	Solver      string            `json:"solver"`
 	Funcs       map[string]string `json:"functions_encoded"`
 	Samples     []string          `json:"sample_paths"`
 	Notes       []string          `json:"notes,omitempty"`
@@ -358,12 +359,15 @@ func cmdCheck(args []string) int {
 		if h.TimeoutS > 0 {
 			opts.TimeoutMs = h.TimeoutS * 1000
 		}
+		if h.Solver != "" {
+			opts.SolverCmd = strings.Fields(h.Solver)
+		}
 		res := symex.Explore(prog, entry, h.config(), opts)
 		fmt.Fprintln(os.Stderr, res.Summary())
 		ev := harnessEvidence{Name: h.Name, Entry: res.Entry, Tier: h.Tier, Mode: h.Mode, Bounds: h.Bounds, Outside: h.Outside, Unwind: h.Unwind,
 			Cuts: h.Cuts, Redirect: h.Redirect, Stubs: h.Stubs, Assumes: h.Assumes, Paths: res.Paths, Ends: res.Ends, Decisions: res.Decisions,
 			Obligations: res.Obligations, Discharged: res.Discharged, Trivial: res.Trivial, Violations: len(res.Violations), Reached: res.Reached,
-			Queries: res.Queries, SolverSec: round2(res.SolverSec), MaxQuerySec: round2(res.MaxQuerySec), WallSec: round2(res.WallSec), Funcs: repoFuncs(res), Samples: res.SamplePaths}
+			Queries: res.Queries, SolverSec: round2(res.SolverSec), MaxQuerySec: round2(res.MaxQuerySec), WallSec: round2(res.WallSec), Solver: res.Solver, Funcs: repoFuncs(res), Samples: res.SamplePaths}
 		for _, inc := range res.Inconclusive() {
 			inconclusive = append(inconclusive, h.Name+": "+inc)
 		}
@@ -515,7 +519,7 @@ func writeEvidence(id, tier string, seed int, evs []harnessEvidence, replays int
 		samples = append(samples, "no path completed")
 	}
 	assumptions = append(assumptions,
-		"z3 4.8.12 is sound on the emitted SMT-LIB2 (unknown/timeout/error are reported as inconclusive, never as held)",
+		"the z3 build in use (5.1.0 `z3-new`, or 4.8.12) is sound on the emitted SMT-LIB2 (unknown/timeout/error are reported as inconclusive, never as held)",
 		"the go/ssa (x/tools v0.29.0) form of the current source is what the compiler builds; engine intrinsics for stdlib leaves (bytealg, math/big, hashes as uninterpreted functions) are faithful",
 		"results hold only inside the stated bounds")
 	if states == 0 {
@@ -529,7 +533,7 @@ func writeEvidence(id, tier string, seed int, evs []harnessEvidence, replays int
 		"coverage": map[string]interface{}{
 			"states": states, "transitions": trans, "traces_validated_against_impl": replays, "samples": samples,
 			"obligations": obl, "discharged": dis, "solver_queries": queries, "solver_seconds": round2(solverSec),
-			"solver": "z3 4.8.12 (one live `z3 -in` per worker, push/pop)", "bounds": bounds, "harnesses": evs,
+			"solver": "per harness: z3 4.8.12 (/usr/bin/z3) for int-mode harnesses, z3 5.1.0 (z3-new) for bit-vector harnesses; one live process per worker, push/pop", "bounds": bounds, "harnesses": evs,
 			"inconclusive": inconclusive, "package_load_seconds": round2(loadSec),
 			"explanation": "states = feasible symbolic paths explored to completion; transitions = symbolic branch/choice decisions; every obligation (assertion or implicit run-time panic check) was put to the solver as path-condition AND NOT obligation",
 		},
